@@ -1,6 +1,7 @@
 package main
 
 import (
+	"strings"
 	"fmt"
 	"math/big"
 
@@ -123,9 +124,10 @@ func drawCdpConfig(r *Rng, cfg *Config) {
 	drawLiqConfig(r, cfg)
 	drawAuxConfig(r, cfg)
 	k["esm"] = 0
-	if r.Chance(1, 4) {
+	if r.Chance(1, 4) || (strings.Contains(cfg.Scenario, "+ctl") && r.Chance(1, 2)) {
 		k["esm"] = 1
 	}
+	k["breaker_w"] = []int64{0, 1, 3, 3}[r.Intn(4)] // 0: the admin never touches the breaker in this run
 }
 
 func feeChoice(r *Rng) sdk.Dec {
